@@ -11,6 +11,8 @@ C13 — Tree assembly: one correctly named group per image, none dropped or swap
   exactly when the file holds at least one map-projection record (and `C04.metadata` says what each contains).
 * `product_tree` — the model of the whole `io.open` (tied to the real one by the whole-product correspondence H9): every
   successful open is assembled from exactly the documented pieces, none dropped or swapped.
+* `coordinates_promoted` — the variables listed by the `coordinates` bookkeeping attribute become coordinates, `data` stays
+  a data variable, the attribute is removed (name-level model of `to_dataset`, tied by correspondence H10).
 * `root_children` — the root has exactly `summary`, `metadata`, `imagery`; root attributes: C16 `root_attrs`.
 
 `DataTree.from_dict`, `Dataset.set_coords` (coordinate promotion) are xarray's: exercised end-to-end, not proved.
@@ -19,6 +21,7 @@ import Alos2.Proofs.AssembleProofs
 import Alos2.Proofs.Decode
 import Alos2.Proofs.MetadataNames
 import Alos2.Proofs.ProductOpen
+import Alos2.Proofs.ToXarray
 
 namespace Alos2.C13
 
@@ -76,6 +79,15 @@ theorem product_tree (fs : Files) (rpc : Nat) (p : Product) (h : openProduct fs 
       p.imagery = groups.foldl (fun acc kv => assocSet acc kv.1 kv.2) [] ∧
       ((groups.map Prod.fst).Nodup → p.imagery = groups) :=
   openProduct_tree fs rpc p h
+
+/-- coordinate promotion (`to_dataset` / `decode_coords` at the level of names; model tied by H10): for the image group as the
+    reader builds it — attributes ∪ header attributes ∪ `coordinates` = the per-line variable names — plus the lazily loaded
+    `data` variable, every per-line variable becomes a coordinate, `data` stays the only data variable, and the bookkeeping
+    attribute is gone -/
+theorem coordinates_promoted {α : Type} (vars : List String) (attrs hattrs : KVs α) (hd : "data" ∉ vars) (hnd : vars.Nodup) :
+    ∃ rest, toDatasetNames (vars ++ ["data"]) (kvUnion attrs (kvUnion hattrs [("coordinates", .list (vars.map PVal.cstr))])) =
+      some { dataVars := ["data"], coords := vars, attrs := rest } ∧ kvGet rest "coordinates" = none :=
+  image_dataset_names vars attrs hattrs hd hnd
 
 theorem root_children : rootChildren = ["summary", "metadata", "imagery"] := rfl
 
